@@ -505,6 +505,109 @@ func c19FifoBody(x *engine.X) {
 	x.Outcome(fmt.Sprintf("fifo/%d items", len(sizes)))
 }
 
+// c19DuplexBody: a CodecConn used in both directions at once over a real TCP connection with a small send buffer: a
+// read is pending (nothing to read yet) while an item larger than the socket buffer is written — the write parks in
+// the poller next to the read, is resumed piece by piece as the peer drains, and completes; then the peer answers with
+// an item of its own. Both the write's and the read's callback run exactly once, the peer receives the reference
+// encoding, and the pending read delivers the peer's item. Order of starting the two, size of the written item, and
+// what the peer does first are free choices.
+func c19DuplexBody(x *engine.X) {
+	ioc, err := sonic.NewIO()
+	if err != nil {
+		engine.HarnessError("NewIO: %v", err)
+	}
+	lfd, addr, port, err := kern.TCPListener()
+	if err != nil {
+		engine.HarnessError("listener: %v", err)
+	}
+	c, err := sonic.Dial(ioc, "tcp", kern.AddrString(addr, port))
+	if err != nil {
+		x.Inconclusive("dial: " + err.Error())
+	}
+	peer, err := kern.AcceptRaw(lfd, settleGuard)
+	syscall.Close(lfd)
+	if err != nil {
+		engine.HarnessError("accept: %v", err)
+	}
+	syscall.SetsockoptInt(c.RawFd(), syscall.SOL_SOCKET, syscall.SO_SNDBUF, 4096)
+	syscall.SetsockoptInt(peer, syscall.SOL_SOCKET, syscall.SO_RCVBUF, 65536)
+	syscall.SetNonblock(peer, true)
+	x.Defer(func() {
+		syscall.SetsockoptLinger(c.RawFd(), syscall.SOL_SOCKET, syscall.SO_LINGER, &syscall.Linger{Onoff: 1})
+		c.Close()
+		kern.Abort(peer)
+		ioc.Close()
+	})
+	src, dst := sonic.NewByteBuffer(), sonic.NewByteBuffer()
+	cc, _ := sonic.NewCodecConn[[]byte, []byte](c, frame.NewCodec(src), src, dst)
+	sizes := []int{5, 70000, 1 << 20}
+	sz := sizes[x.Pick(len(sizes), "size of the written item")]
+	readFirst := x.Pick(2, "started first: the read | the write") == 0
+	replyEarly := x.Pick(2, "the peer sends its item: after it has received everything | while the write is still parked") == 1
+	x.Note("duplex write %d bytes, readFirst=%v, replyEarly=%v", sz, readFirst, replyEarly)
+	x.Nontrivial()
+	item := payloadBytes(3, sz)
+	want := refEncode(item)
+	reply := payloadBytes(9, 300)
+	wcalls, rcalls := 0, 0
+	var werr, rerr error
+	var ritem []byte
+	startRead := func() {
+		cc.AsyncReadNext(func(err error, it []byte) { rcalls++; rerr = err; ritem = append([]byte{}, it...) })
+	}
+	startWrite := func() { cc.AsyncWriteNext(item, func(err error, n int) { wcalls++; werr = err }) }
+	if readFirst {
+		startRead()
+		startWrite()
+	} else {
+		startWrite()
+		startRead()
+	}
+	var got []byte
+	buf := make([]byte, 1<<16)
+	replied := false
+	sendReply := func() {
+		replied = true
+		b := refEncode(reply)
+		for len(b) > 0 {
+			n, err := syscall.Write(peer, b)
+			if err != nil {
+				engine.HarnessError("peer write: %v", err)
+			}
+			b = b[n:]
+		}
+	}
+	deadline := time.Now().Add(20 * time.Second)
+	for (wcalls == 0 || rcalls == 0 || len(got) < len(want)) && time.Now().Before(deadline) {
+		if replyEarly && !replied && (len(got) > 0 || sz <= 5) {
+			sendReply()
+		}
+		if n, err := syscall.Read(peer, buf); err == nil && n > 0 {
+			got = append(got, buf[:n]...)
+		}
+		if !replied && len(got) >= len(want) {
+			sendReply()
+		}
+		ioc.PollOne()
+		if wcalls > 0 && werr != nil {
+			break
+		}
+	}
+	if wcalls != 1 || werr != nil {
+		x.Fail("codecconn.duplex/write-callbacks", "a %d-byte item written while a read was pending: the write callback ran %d times, err=%v (the peer received %d of %d bytes)", sz, wcalls, werr, len(got), len(want))
+	}
+	if string(got) != string(want) {
+		x.Fail("codecconn.write/peer-bytes", "a %d-byte item written while a read was pending: the peer received %d bytes, the reference encoding has %d", sz, len(got), len(want))
+	}
+	if rcalls != 1 || rerr != nil || string(ritem) != string(reply) {
+		x.Fail("codecconn.duplex/read-lost", "the read that was pending while a %d-byte item was written: callback ran %d times, err=%v, item of %d bytes (the peer sent one item of %d bytes after the write)", sz, rcalls, rerr, len(ritem), len(reply))
+	}
+	if p := ioc.Pending(); p != 0 {
+		x.Fail("codecconn.duplex/pending", "Pending()=%d after both operations completed", p)
+	}
+	x.Outcome(fmt.Sprintf("duplex/%d/%v/%v", sz, readFirst, replyEarly))
+}
+
 func c19DFS(tier, which string) *engine.DFS {
 	dev := 2
 	if tier == "thorough" {
@@ -517,6 +620,8 @@ func c19DFS(tier, which string) *engine.DFS {
 		return &engine.DFS{Name: "read@" + tier, Body: c19ReadBody, Threads: 16, ShardDepth: 3, MaxDeviations: dev, MaxPoints: 700}
 	case "fifo":
 		return &engine.DFS{Name: "fifo@" + tier, Body: c19FifoBody, Procs: 4, WorkerProcs: 1, ShardDepth: 1, MaxDeviations: 2, MaxPoints: 200, HangTimeout: 30 * time.Second}
+	case "duplex":
+		return &engine.DFS{Name: "duplex@" + tier, Body: c19DuplexBody, Procs: 4, WorkerProcs: 1, ShardDepth: 1, MaxDeviations: 0, MaxPoints: 50, HangTimeout: 60 * time.Second}
 	case "allsizes":
 		return &engine.DFS{Name: "allsizes@" + tier, Body: c19AllSizesBody, Threads: 16, ShardDepth: 1, MaxDeviations: 0}
 	default:
@@ -527,7 +632,7 @@ func c19DFS(tier, which string) *engine.DFS {
 func C19(tier string) *engine.Report {
 	rep := engine.NewReport("C19", tier, "exploration")
 	var tot engine.DFSTotals
-	for _, w := range []string{"write", "read", "allsizes", "hostile", "fifo"} {
+	for _, w := range []string{"write", "read", "allsizes", "hostile", "fifo", "duplex"} {
 		tot.Add(c19DFS(tier, w).Run(), rep)
 	}
 	for _, v := range c19LimitBoundary() {
@@ -536,7 +641,7 @@ func C19(tier string) *engine.Report {
 	rep.Coverage["limit_boundary"] = "payloads of exactly the limit (1 GiB) and limit+1 through Encode; headers declaring limit and limit+1 through Decode"
 	tot.Fill(rep, "payload sequences (<=3 items over 6 sizes) written through a real CodecConn+frame.Codec (blocking/async, partial acceptance, deferred completion) and compared byte-for-byte with the reference encoding; "+
 		"the reference-encoded stream read back through a second CodecConn under all cut sets of up to N cuts around every boundary/header byte, whole and byte-by-byte, blocking/async inline/deferred; "+
-		"items of 3-5 pages written asynchronously through a real one-page pipe (a sonic File) whose reader drains a page or everything between polls; hostile 4-byte prefixes (all over-limit ones and those <=128 KiB) x tails x all cut sets; non-trivial = segmented, partial, deferred or multi-item", 2)
+		"items of 3-5 pages written asynchronously through a real one-page pipe (a sonic File) whose reader drains a page or everything between polls; a CodecConn used in both directions over real TCP (a read pending while an item of 5 B / 70 kB / 1 MiB is written and parks; the peer answers after or during the write); hostile 4-byte prefixes (all over-limit ones and those <=128 KiB) x tails x all cut sets; non-trivial = segmented, partial, deferred or multi-item", 2)
 	return rep
 }
 
